@@ -21,9 +21,11 @@ META = {
     "level_text": (
         "Coq theorems over a Gallina model of intermediate/revm.py (translator with label "
         "counter, _relabel_in_place, _remove_noop_in_place) and of the generated C++ matcher "
-        "(ThreadList, CharacterInRanges, Match): totality on front-end-accepted patterns, "
-        "targets in range, compiler correctness of the label-free compilation against a "
-        "denotational matching semantics for all trees and words. The model is tied to the code by "
+        "(ThreadList, CharacterInRanges, Match): for every accepted greedy anchored tree the "
+        "labelled translation + relabelling + no-op removal equals the label-free compilation, "
+        "never raises, has all targets in range, and the emitted program accepts exactly the "
+        "words the pattern fully matches (denotational semantics; all trees, all words without "
+        "line breaks). The model is tied to the code by "
         "in-Coq correspondence streams (exact instruction lists from the real parser + "
         "translator; verdicts of the model matcher vs Python re.fullmatch) and the property is "
         "executed directly: a reference interpreter of the documented instruction semantics and "
@@ -38,7 +40,7 @@ META = {
                  "+ execution of the real programs (Python reference VM, g++-compiled matcher)",
 }
 GEN: list = []
-MODEL = ["Model/RevmTree", "Model/Revm", "Model/RevmVM", "Model/RevmComp"]
+MODEL = ["Model/RevmTree", "Model/Revm", "Model/RevmVM", "Model/RevmComp", "Model/RevmShape"]
 TRUSTED = [
     "Model/Revm.v, Model/RevmVM.v are hand-written models of intermediate/revm.py and of the C++ "
     "Match loop (correspondence-checked: exact programs; verdicts)",
@@ -56,7 +58,8 @@ RULE = ("case = anchored pattern text generated from a grammar (letters, escapes
         "by pattern text")
 
 HEADER = """From Coq Require Import List NArith Bool Arith.
-From Acg Require Import Base.Outcome Base.Str Model.RevmTree Model.Revm Model.RevmVM Model.RevmComp.
+From Acg Require Import Base.Outcome Base.Str Model.RevmTree Model.Revm Model.RevmVM Model.RevmComp
+  Model.RevmShape.
 Import ListNotations.
 Open Scope N_scope.
 Definition leaf_eqb (a b : instr * option nat) : bool :=
@@ -82,7 +85,11 @@ Fixpoint bad_from {A} (ok : A -> bool) (i : nat) (cs : list A) : list nat :=
   | [] => []
   | c :: r => if ok c then bad_from ok (S i) r else i :: bad_from ok (S i) r
   end.
-Definition bad_t := bad_from (fun c => fe_ok c && tr_ok c && comp_ok c) 0%nat.
+(* the hypotheses of the theorems cover the real trees: what the real front end accepts
+   (and is greedy) has the shape [accepted_shape] *)
+Definition shape_ok (c : tcase) : bool :=
+  match c with (t, fe, _) => if fe && greedy t then shape_okb t else true end.
+Definition bad_t := bad_from (fun c => fe_ok c && tr_ok c && comp_ok c && shape_ok c) 0%nat.
 Definition wcase := (regex * list (list N * bool))%type.
 Definition sem_ok (c : wcase) : bool :=
   match c with (t, ws) => forallb (fun wv => Bool.eqb (matchb (fst wv) t) (snd wv)) ws end.
@@ -402,14 +409,15 @@ def streams(ctx: lib.Ctx) -> None:
         pat = tidx[i]
         r = results[patterns.index(pat)]
         which = lib.coq_eval(ctx.work, "c18_show", HEADER,
-                             f"let c : tcase := {tcases[i]} in (fe_ok c, tr_ok c, comp_ok c, "
+                             f"let c : tcase := {tcases[i]} in (fe_ok c, tr_ok c, comp_ok c, shape_ok c, "
                              f"fe_accepts (fst (fst c)), translate (fst (fst c)))")
-        flags = re.findall(r"true|false", which)[:3]
-        names = [n for n, f in zip(("fe", "translate", "comp"), flags) if f == "false"] or ["translate"]
+        flags = re.findall(r"true|false", which)[:4]
+        names = [n for n, f in zip(("fe", "translate", "comp", "shape"), flags)
+                 if f == "false"] or ["translate"]
         for name in names:
             ctx.corr_break(name, {"pattern": pat}, which[-1200:],
                            r["fe"] if name == "fe" else r["prog"])
-    for name in ("fe", "translate", "comp"):
+    for name in ("fe", "translate", "comp", "shape"):
         ctx.count(name, len(tcases), validated=len(tcases), disagreeing=len(bad))
 
     # --- words and verdicts
